@@ -36,6 +36,28 @@ fn rust_wrappers(c: &mut Case, it: &dfam::DItem, stream_ref: &[u8]) -> Result<()
             _ => zlib_rs::Strategy::Fixed,
         },
     };
+    // a preset dictionary is not input of any compress call: the wrapper's totals count the slices only
+    if !input.is_empty() {
+        c.exec();
+        let mut d = zlib_rs::Deflate::new_with_config(cfg);
+        let dict = &input[..input.len().min(300)];
+        if d.set_dictionary(dict).is_ok() {
+            if d.total_in() != 0 || d.total_out() != 0 {
+                return Err(format!("Deflate::set_dictionary({} bytes) moved the totals to {} / {}", dict.len(), d.total_in(), d.total_out()));
+            }
+            let mut buf = vec![0u8; input.len() * 2 + 400];
+            let half = input.len() / 2;
+            let r1 = d.compress(&input[..half], &mut buf, zlib_rs::DeflateFlush::SyncFlush);
+            if r1.is_err() || d.total_in() as usize != half {
+                return Err(format!("Deflate with a {}-byte dictionary: after compress({half} bytes, SyncFlush) -> {r1:?} total_in is {}", dict.len(), d.total_in()));
+            }
+            let o1 = d.total_out() as usize;
+            let r2 = d.compress(&input[half..], &mut buf[o1..], zlib_rs::DeflateFlush::Finish);
+            if r2 != Ok(zlib_rs::Status::StreamEnd) || d.total_in() as usize != input.len() {
+                return Err(format!("Deflate with a {}-byte dictionary: after the Finish call -> {r2:?} total_in is {} for {} bytes of input", dict.len(), d.total_in(), input.len()));
+            }
+        }
+    }
     for (in_chunk, out_chunk) in [(usize::MAX, 1 << 16), (1, 1 << 16), (7, 3), (1 << 16, 1), (300, 300), (0, 5)] {
         c.exec();
         let mut d = zlib_rs::Deflate::new_with_config(cfg);
